@@ -204,6 +204,22 @@ impl<'a> Ctx<'a> {
         if self.prop == "C20" && self.trace {
             self.check_trace(input, &tc, "tailcall");
             self.check_trace(input, &sm, "state_machine");
+            // every attempt (next() or restart after a skip) starts exactly at the end of the
+            // previous item or skip: the sequence of attempt starts is the sequence of segment starts
+            let mut segs: Vec<usize> = exp.items.iter().map(|i| i.span().0).chain(exp.skips.iter().map(|s| s.1)).collect();
+            segs.sort();
+            for (name, b) in [("tailcall", &tc), ("state_machine", &sm)] {
+                if b.flags != 0 {
+                    continue;
+                }
+                let starts: Vec<usize> = b.events.iter().filter(|e| e.0 != 2).map(|e| e.1 as usize).collect();
+                // the final attempts (the one returning None and the three fused calls) start at the end
+                let body: Vec<usize> = starts.iter().copied().take(segs.len()).collect();
+                let tail_ok = starts.iter().skip(segs.len()).all(|s| *s == exp.end_pos);
+                if body != segs || !tail_ok {
+                    self.complain("ATTEMPT-START", input, format!("[{name}] attempts start at {starts:?}, items and skips start at {segs:?} (end {})", exp.end_pos), json!({}));
+                }
+            }
         }
         self.b_tc = tc;
         self.b_sm = sm;
